@@ -122,7 +122,10 @@ def refactor(tag, r, sid):
     sh(f"git apply {d}/patch.diff", wt)
     try:
         rc, mut = sh(f"/venv/bin/python {d}/equiv.py", wt)
-        res["equiv_same_digest"] = rc == 0 and mut.strip() == base.strip()
+        def dig(t):
+            ls = [l.strip() for l in t.splitlines() if "digest" in l.lower()]
+            return ls or t.strip()
+        res["equiv_same_digest"] = rc == 0 and dig(mut) == dig(base)
         ok = False
         for attempt in range(3):
             rc, t = sh("/venv/bin/python -m pytest -q -rf -p no:cacheprovider --timeout=900 --continue-on-collection-errors", wt)
